@@ -261,3 +261,67 @@ Example race_as_is :
   get (arun (fun n i => n * 1000 + i) 100 race_acts) 1075 0 = GNone /\
   ring (arun (fun n i => n * 1000 + i) 100 race_acts) = [].
 Proof. vm_compute. auto. Qed.
+
+(* (6) seeded change C15-7 — two edits, each fine alone.  (a) Get takes the read lock only to fetch
+   the slot (slotOf) and picks nodes[pos] AFTER releasing it: the lookup is split into [lookup] and
+   [pick], and membership actions can run in between; the pick reads the slot's backing array as it is
+   THEN, with the length it had at the lookup.  (b) removeRingNode filters with slices.DeleteFunc,
+   which (Go >= 1.22) zeroes the tail of the backing array.  [backing]: what the array captured at the
+   lookup holds at the pick, after removals in that slot — the surviving entries first, then either
+   the stale old entries (in-place filter of HEAD) or nils (DeleteFunc). *)
+Inductive pick := PNone | PNode (x : node) | PNil.
+
+Section Pinned7.
+Variable vh : Z -> Z -> Z.
+Variable R : Z.
+
+Definition backing (zero_tail : bool) (old new : list node) : list (option node) :=
+  map Some new ++
+  (if zero_tail then repeat None (length old - length new)
+   else map Some (skipn (length new) old)).
+
+(* the slot of the key in state s *)
+Definition slot_key (s : state) (hp : Z) : option Z :=
+  match keys s with
+  | [] => None
+  | k0 :: _ => Some (nth (Nat.modulo (search hp (keys s)) (length (keys s))) (keys s) k0)
+  end.
+
+(* lookup in [s1]; membership actions (removals only touch the array in place) lead to [s2]; pick *)
+Definition split_get (zero_tail : bool) (s1 s2 : state) (hp ihp : Z) : pick :=
+  match ring s1, slot_key s1 hp with
+  | [], _ | _, None => PNone
+  | _, Some k =>
+    let old := bucket k (ring s1) in
+    let arr := backing zero_tail old (bucket k (ring s2)) in
+    match old with
+    | [] => PNone
+    | [_] => match nth 0 arr None with Some x => PNode x | None => PNil end
+    | _ => match nth (Z.to_nat (ihp mod Z.of_nat (length old))) arr None with Some x => PNode x | None => PNil end
+    end
+  end.
+End Pinned7.
+
+(* nodes 1 and 2 share slot 7 (their virtual node 0); the key lands on it and its inner hash picks
+   index 1 = node 2; Remove(2) runs between the lookup and the pick *)
+Definition c157_pre : list act :=
+  [ARemove 1; AInsert (mkNode 1 1) 3; ARemove 2; AInsert (mkNode 2 2) 3].
+
+Theorem split_get_with_zeroing_delete_refuted :
+  exists vh R pre mid hp ihp,
+    split_get true (arun vh R pre) (arun vh R (pre ++ mid)) hp ihp = PNil /\
+    get (arun vh R pre) hp ihp <> GNone /\ get (arun vh R (pre ++ mid)) hp ihp <> GNone.
+Proof.
+  exists three_way_hash, 3, c157_pre, [ARemove 2], 5, 1. vm_compute. repeat split; discriminate.
+Qed.
+
+(* each edit alone stays linearisable on this execution: with the in-place filter the split lookup
+   still answers node 2 (the answer before the Remove); the atomic lookup answers node 2 before and
+   node 1 after *)
+Example c157_each_edit_alone :
+  split_get false (arun three_way_hash 3 c157_pre) (arun three_way_hash 3 (c157_pre ++ [ARemove 2])) 5 1
+    = PNode (mkNode 2 2) /\
+  get (arun three_way_hash 3 c157_pre) 5 1 = GSome (mkNode 2 2) /\
+  get (arun three_way_hash 3 (c157_pre ++ [ARemove 2])) 5 1 = GSome (mkNode 1 1) /\
+  split_get true (arun three_way_hash 3 c157_pre) (arun three_way_hash 3 c157_pre) 5 1 = PNode (mkNode 2 2).
+Proof. vm_compute. auto. Qed.
